@@ -8,6 +8,8 @@ import (
 	"sync"
 	"time"
 
+	"berty.tech/go-orbit-db/iface"
+
 	"verifharness/fw"
 	"verifharness/sim"
 )
@@ -16,14 +18,14 @@ func init() {
 	fw.Register(&fw.Property{
 		ID:    "C17",
 		Level: "exploration",
-		Rule: "cases = 2-8 goroutines x 3-20 writes on ONE store (all three types, on-disk directory) with a schedule-point handler in {none, PRNG delays at write.after-append / write.after-persist / write.after-index, targeted: the writer that arrives first at write.after-append is held until another writer has passed write.after-persist}; then close, reopen on the same directory and Load(-1). The arrival order at the points is recorded. " +
+		Rule: "cases = 2-8 goroutines x 3-20 writes on ONE store (all three types, on-disk directory) with a schedule-point handler in {none, PRNG delays at write.after-append / write.after-persist / write.after-index, targeted: the writer that arrives first at write.after-append is held until another writer has passed write.after-persist, index-hold: one index rebuild is held at index.after-values while other writers proceed}, some on a store preloaded with 120 entries; every other write goes to a key only its goroutine uses and is read back by that goroutine at once; then close, reopen on the same directory and Load(-1). The arrival order at the points is recorded. " +
 			"distinct = hash(store type, goroutines, writes, handler, observed arrival-order signature); non-trivial = write calls really overlapped at the API boundary (a call started while another was in flight); the number of arrivals at write.after-append while another writer was between append and persist is reported separately",
 		Assumptions: []string{"clean close before the restart (crashes are C05)", "one store instance per identity"},
 		Cases:       c17Cases,
 		Run:         c17Run,
 		MinDistinct: map[string]int{"quick": 30, "thorough": 250},
 		Batch:       8,
-		Explain:     "oracle: every call that returned nil returned a distinct entry hash; the listing after the writers finish contains all of them; after close, reopen and Load(-1) it still does; order extends happens-before and the view equals the replay.",
+		Explain:     "oracle: every call that returned nil returned a distinct entry hash and is visible to a read issued by the same goroutine right afterwards; the listing after the writers finish contains all of them; after close, reopen and Load(-1) it still does; order extends happens-before and the view equals the replay.",
 	})
 }
 
@@ -33,11 +35,11 @@ func c17Cases(tier string, seed int64) []fw.Case {
 		n = 600
 	}
 	rng := rand.New(rand.NewSource(seed*613651349 + 17))
-	hs := []string{"none", "delays", "targeted"}
+	hs := []string{"none", "delays", "targeted", "index-hold"}
 	var out []fw.Case
 	for i := 0; i < n; i++ {
 		out = append(out, fw.Case{Idx: i, Seed: rng.Int63(), P: map[string]interface{}{
-			"type": storeTypes[i%3], "g": 2 + rng.Intn(7), "w": 3 + rng.Intn(18), "handler": hs[(i/3)%3],
+			"type": storeTypes[i%3], "g": 2 + rng.Intn(7), "w": 3 + rng.Intn(18), "handler": hs[(i/3)%4], "preload": []int{0, 0, 120}[i%3],
 		}})
 	}
 	return out
@@ -58,6 +60,17 @@ func c17Run(c fw.Case) fw.Verdict {
 	}
 	s := db.Stores[P.Idx]
 
+	for i := 0; i < c.Int("preload", 0); i++ { // a longer log makes every index rebuild take longer
+		if _, err := ApplyOp(bg, s, honestOp(typ, 100000+i)); err != nil {
+			return fw.Verdict{Status: fw.Inconclusive, What: "preload: " + err.Error()}
+		}
+	}
+	ih := &indexHolder{}
+	if handler == "index-hold" {
+		ih.install(e)
+		ih.set(true)
+	}
+	var ryw *Violation
 	var mu sync.Mutex
 	var arrivals []byte
 	between := 0 // writers between append and persist
@@ -122,7 +135,9 @@ func c17Run(c fw.Case) fw.Verdict {
 			time.Sleep(d)
 		}
 	})
-	e.H.SetPoint("write.after-index", func(string, []interface{}) { note('i') })
+	if handler != "index-hold" {
+		e.H.SetPoint("write.after-index", func(string, []interface{}) { note('i') })
+	}
 
 	type ack struct {
 		hash string
@@ -139,8 +154,18 @@ func c17Run(c fw.Case) fw.Verdict {
 			defer wg.Done()
 			for i := 0; i < w; i++ {
 				op := honestOp(typ, gi*1000+i)
-				if typ == tKV {
+				own := i%2 == 1 // every other write goes to a key only this goroutine uses: read-your-writes is then decidable
+				switch typ {
+				case tKV:
 					op.Key = fmt.Sprintf("k%d", (gi+i)%3) // contended keys
+					if own {
+						op.Key = fmt.Sprintf("own-g%d", gi)
+					}
+				case tDocs:
+					if own {
+						id := fmt.Sprintf("own-g%d", gi)
+						op = Op{Kind: "put", Key: id, Docs: []Doc{{ID: id, N: gi*1000 + i, Tag: "own"}}}
+					}
 				}
 				amu.Lock()
 				if inflight > 0 {
@@ -149,6 +174,36 @@ func c17Run(c fw.Case) fw.Verdict {
 				inflight++
 				amu.Unlock()
 				res, err := ApplyOp(bg, s, op)
+				if err == nil {
+					// the call returned: its own entry must be visible to the caller at once
+					var seen bool
+					switch st := s.(type) {
+					case iface.KeyValueStore:
+						got, _ := st.Get(bg, op.Key)
+						seen = !own || string(got) == string(op.Val)
+					case iface.DocumentStore:
+						seen = true
+						if own {
+							docs, _ := st.Get(bg, op.Key, nil)
+							seen = false
+							for _, d := range docs {
+								if m, ok := d.(map[string]interface{}); ok && int(m["n"].(float64)) == op.Docs[0].N {
+									seen = true
+								}
+							}
+						}
+					case iface.EventLogStore:
+						_, gerr := st.Get(bg, res.GetEntry().GetHash())
+						seen = gerr == nil
+					}
+					if !seen {
+						amu.Lock()
+						if ryw == nil {
+							ryw = &Violation{"acknowledged-write-not-visible", fmt.Sprintf("write %d of goroutine %d (%s) returned success but a read issued by the same goroutine right afterwards does not show it", i, gi, op)}
+						}
+						amu.Unlock()
+					}
+				}
 				amu.Lock()
 				inflight--
 				if err != nil {
@@ -161,8 +216,13 @@ func c17Run(c fw.Case) fw.Verdict {
 		}(gi)
 	}
 	wg.Wait()
+	ih.set(false)
 	e.W.Settle()
 	e.H.ClearPoints()
+	v.Count("index_rebuilds_held", int64(ih.Holds))
+	if ryw != nil {
+		return fw.Verdict{Status: fw.Violated, Key: ryw.Key, What: ryw.What + fmt.Sprintf(" (handler %s, %d goroutines)", handler, g), NonTrivial: true, Sig: fw.HashSig(typ, g, w, handler, c.Seed)}
+	}
 	mu.Lock()
 	sigArr := fw.HashSig(string(arrivals))
 	ov := overlaps
